@@ -76,13 +76,13 @@ class RecordPacker:
 
         elif isinstance(obj, GroupedRecord):
             for desc in obj.descriptors:
-                if desc.identifier not in self.descriptors:
+                if self.descriptors.get(desc.identifier) != desc:
                     self.register(desc, True)
 
             packed = RECORD_PACK_TYPE_GROUPEDRECORD, obj._pack()
 
         elif isinstance(obj, Record):
-            if obj._desc.identifier not in self.descriptors:
+            if self.descriptors.get(obj._desc.identifier) != obj._desc:
                 self.register(obj._desc, True)
 
             data = obj._pack(unversioned=unversioned)
